@@ -797,6 +797,24 @@ def resugar_found_flag(tree):
 
     def rewrite(stmts, top):
         out = list(stmts)
+        # `m = None; for ..: m = v; break` / `x = m` / `if x is not None:` - the copy is folded into the search variable first
+        k = 0
+        while k + 3 < len(out):
+            a, loop, cp = out[k], out[k + 1], out[k + 2]
+            if isinstance(a, ast.Assign) and len(a.targets) == 1 and isinstance(a.targets[0], ast.Name) and isinstance(a.value, ast.Constant) \
+                    and a.value.value is None and isinstance(loop, ast.For) and isinstance(cp, ast.Assign) and len(cp.targets) == 1 \
+                    and isinstance(cp.targets[0], ast.Name) and isinstance(cp.value, ast.Name) and cp.value.id == a.targets[0].id \
+                    and cp.targets[0].id != a.targets[0].id:
+                m, x = a.targets[0].id, cp.targets[0].id
+                elsewhere = any(isinstance(n_, ast.Name) and n_.id == m for s2 in out[:k] + out[k + 3:] for n_ in ast.walk(s2))
+                x_in_loop = any(isinstance(n_, ast.Name) and n_.id == x for n_ in ast.walk(loop))
+                if not elsewhere and not x_in_loop:
+                    for n_ in list(ast.walk(a)) + list(ast.walk(loop)):
+                        if isinstance(n_, ast.Name) and n_.id == m:
+                            n_.id = x
+                    out.pop(k + 2)
+                    continue
+            k += 1
         i = 0
         while i + 2 < len(out) + 1 and i + 2 <= len(out) - 1:
             a, loop, test = out[i], out[i + 1], out[i + 2]
@@ -1772,6 +1790,56 @@ def _simple_elt(e):
     return False
 
 
+def _thread_iteration(stmts, rest, budget):
+    """the statements of one loop iteration, rewritten so that falling off the end or `continue` runs `rest` (the following
+    iterations) and `break` runs nothing more of the loop; every such point is moved into tail position first.  None when a
+    jump sits somewhere this does not model (inside with / a nested loop's else / a try body / a finally)"""
+    def has_jump(node):
+        stack = [node]
+        while stack:
+            x = stack.pop()
+            if isinstance(x, (ast.Break, ast.Continue)):
+                return True
+            if isinstance(x, (ast.For, ast.While, ast.FunctionDef, ast.Lambda, ast.ClassDef)) and x is not node:
+                continue
+            stack.extend(ast.iter_child_nodes(x))
+        return False
+    budget[0] -= len(stmts) + len(rest)
+    if budget[0] < 0:
+        return None
+    for i, st in enumerate(stmts):
+        if isinstance(st, ast.Continue):
+            return list(stmts[:i]) + copy.deepcopy(rest)
+        if isinstance(st, ast.Break):
+            return list(stmts[:i]) or [ast.copy_location(ast.Pass(), st)]
+        if isinstance(st, (ast.Return, ast.Raise)):
+            return list(stmts[:i + 1])
+        if not has_jump(st) and not (isinstance(st, (ast.If, ast.Try)) and _contains_return([st])):
+            continue
+        after = list(stmts[i + 1:])
+        if isinstance(st, ast.If):
+            b = _thread_iteration(list(st.body) + copy.deepcopy(after), rest, budget)
+            e = _thread_iteration(list(st.orelse) + after, rest, budget)
+            if b is None or e is None:
+                return None
+            new = ast.copy_location(ast.If(test=st.test, body=b or [ast.copy_location(ast.Pass(), st)], orelse=e), st)
+            return list(stmts[:i]) + [new]
+        if isinstance(st, ast.Try) and not st.finalbody and not any(has_jump(x) or _contains_return([x]) for x in st.body):
+            hs = []
+            for h in st.handlers:
+                hb = _thread_iteration(list(h.body) + copy.deepcopy(after), rest, budget)
+                if hb is None:
+                    return None
+                hs.append(ast.copy_location(ast.ExceptHandler(type=h.type, name=h.name, body=hb or [ast.copy_location(ast.Pass(), h)]), h))
+            oe = _thread_iteration(list(st.orelse) + after, rest, budget)
+            if oe is None:
+                return None
+            new = ast.copy_location(ast.Try(body=st.body, handlers=hs, orelse=oe, finalbody=[]), st)
+            return list(stmts[:i]) + [new]
+        return None
+    return list(stmts) + copy.deepcopy(rest)
+
+
 def unroll_constant_loops(tree, limit=8):
     """`for x in ("a", "b", "c"): BODY`, `for k, v in (("a", x), ("b", y)): BODY` and `for k, v in zip((..), (..)): BODY` over
     short literal sequences of simple elements, without break/continue/else: replaced by the unrolled bodies with the loop
@@ -1805,11 +1873,13 @@ def unroll_constant_loops(tree, limit=8):
                 rows = rows_of(st.iter)
                 names = {x.id for x in ast.walk(st.target) if isinstance(x, ast.Name)}
                 body_nodes = [x for b in st.body for x in ast.walk(b)]
+                jumps = any(isinstance(x, (ast.Break, ast.Continue, ast.Return)) for x in body_nodes)
                 if rows is not None and 0 < len(rows) <= limit and all(_simple_elt(r) for r in rows) \
-                        and not any(isinstance(x, (ast.Break, ast.Continue, ast.FunctionDef, ast.Lambda, ast.Return)) for x in body_nodes) \
+                        and not any(isinstance(x, (ast.FunctionDef, ast.Lambda)) for x in body_nodes) \
                         and not any(isinstance(x, ast.Name) and x.id in names and isinstance(x.ctx, ast.Store) for x in body_nodes):
                     ok = True
                     unrolled = []
+                    bodies = []
                     for r in rows:
                         env = {}
                         if not bind(st.target, r, env):
@@ -1821,8 +1891,25 @@ def unroll_constant_loops(tree, limit=8):
                                 if node.id in env and isinstance(node.ctx, ast.Load):
                                     return ast.copy_location(copy.deepcopy(env[node.id]), node)
                                 return node
-                        for b in st.body:
-                            unrolled.append(R().visit(copy.deepcopy(b)))
+                        bodies.append([R().visit(copy.deepcopy(b)) for b in st.body])
+                    if ok and not jumps:
+                        for b_ in bodies:
+                            unrolled.extend(b_)
+                    elif ok:
+                        # break / continue / return inside the body: the following iterations are threaded into the tail positions
+                        rest = []
+                        budget = [600]
+                        for b_ in reversed(bodies):
+                            rest = _thread_iteration(b_, rest, budget)
+                            if rest is None:
+                                ok = False
+                                break
+                        if ok:
+                            # a `break`/`return` path must not run what follows inside the same block twice: the threaded form is one
+                            # nested statement list, what follows the loop in the source follows it here as well - but only paths
+                            # that *leave* the loop normally may reach it; `return` paths do, by returning.  Paths that ended by
+                            # `break` fall out of the nest to the same place.  So the list can be spliced in as it is.
+                            unrolled = rest
                     if ok:
                         # names of the loop variables stay bound to the last row after the loop, as in the original
                         last = {}
@@ -2394,6 +2481,7 @@ def normalize(tree, extern=None, modname=None):
         stats["inlined"] += n
         if not n:
             break
+    stats["found_flag"] += resugar_found_flag(tree)      # find-first helpers that were just expanded
     stats["expr_inlined"] = inline_expression_helpers(tree, extern)
     stats["aliases"] = propagate_aliases(tree)
     stats["unrolled"] = unroll_constant_loops(tree)
@@ -2639,6 +2727,12 @@ def _const_truth(t):
     if isinstance(t, ast.Compare) and len(t.ops) == 1 and isinstance(t.left, ast.Constant) and isinstance(t.comparators[0], ast.Constant) \
             and isinstance(t.ops[0], (ast.Is, ast.IsNot)) and (t.left.value is None or t.comparators[0].value is None):
         same = t.left.value is t.comparators[0].value
+        return same if isinstance(t.ops[0], ast.Is) else not same
+    if isinstance(t, ast.Compare) and len(t.ops) == 1 and isinstance(t.ops[0], (ast.Is, ast.IsNot)) \
+            and isinstance(t.left, ast.Attribute) and isinstance(t.comparators[0], ast.Attribute) \
+            and all(isinstance(x.value, ast.Name) and x.value.id in ("np", "numpy") for x in (t.left, t.comparators[0])):
+        # np.int64 is np.int64 / np.int64 is np.float64 (after a loop over a tuple of numpy types was unrolled)
+        same = t.left.attr == t.comparators[0].attr
         return same if isinstance(t.ops[0], ast.Is) else not same
     if isinstance(t, ast.Compare) and len(t.ops) == 1 and isinstance(t.left, ast.Constant) and isinstance(t.left.value, (str, int)) \
             and not isinstance(t.left.value, bool):
